@@ -22,7 +22,7 @@ from .. import q
 from ..cfg import must_facts, holds
 from ..mutate import mutate, remove_stmts, replace_expr, replace_stmt, parse_stmt, parse_expr
 from ..model import AnalysisError
-from ..x_valuewalk import walk, single_assignment, branch_flag
+from ..x_valuewalk import walk, single_assignment, branch_flag, alias_expand
 from ..rules import tainted_names
 
 TECHNIQUE = "case-table evaluation by constant folding of the mode tests + guard-dominance facts + codec/agreement tables"
@@ -148,7 +148,7 @@ def rule_html(ck):
         rs = returns(f)
         ck.floor(rid, len(rs), 1, "returns in %s" % fname)
         for r in rs:
-            c = r.ast.value
+            c = alias_expand(f.node, r.ast.value)
             ok = isinstance(c, ast.Call) and qualify(m, c.func) == target and len(c.args) >= 1
             ck.ob(rid, f, r.ast, ok, "%s returns %s(...)" % (fname, target))
             if not ok:
